@@ -140,7 +140,7 @@ int main(int argc, char **argv) {
                 size_t want_end = (size_t) (4096 * k - 1 + d);                 // offset of the token's last character
                 size_t fixed = head.size() + tok.size();
                 std::string pad; while (fixed + pad.size() < want_end + 1) { size_t room = want_end + 1 - fixed - pad.size(); size_t n = std::min<size_t>(room, 61); if (n == 1) pad += "\n"; else { pad += "#"; pad += std::string(n - 2, 'p'); pad += "\n"; } }
-                bytes = head + pad + tok + bad + "_z 1\n";
+                bytes = head + pad + tok + bad + (*g::chance(60) ? "_z 1\n" : "");   // (sometimes the undecodable sequence is the very end of the input)
                 label("fill-aligned-undecodable"); aligned = true;
             }
             if (!aligned && *g::chance(80)) { auto ed = *rc::gen::container<std::vector<int>>((size_t) (3 * *g::range(1, 4)), g::range(0, 99999)); bytes = mutate(bytes, ed); label("mutated"); }
